@@ -188,3 +188,9 @@ rev_fns!(E16, rt_feed_e16, rt_adv_e16, |v: i64| E16(v, !v), |x: &E16| if x.1 == 
     drop(v);
     sum
 }
+
+// ---- boxed slices: {instance: {data, len}, drop_fn(&mut {data, len})}
+/// a boxed slice BUILT BY C: Rust reads it and releases it (exactly one drop_fn call on the instance, whatever its length)
+#[no_mangle] pub extern "C" fn rt_sbox_rev(b: cglue::boxed::CSliceBox<'static, u64>) -> u64 { let s = b.iter().fold(0u64, |a, x| a.wrapping_mul(31).wrapping_add(*x)); drop(b); s }
+/// a boxed slice built by Rust, for C to read through the fields and release through drop_fn
+#[no_mangle] pub extern "C" fn rt_mk_sbox(out: *mut cglue::boxed::CSliceBox<'static, u64>, n: usize, base: u64) { let v: Vec<u64> = (0..n as u64).map(|i| base + i).collect(); unsafe { out.write(v.into_boxed_slice().into()) } }
